@@ -1,5 +1,6 @@
 From SV Require Import Base.ListX Store.Masked World.Env World.Join World.JoinProps World.JoinAbs World.JoinRefine
-  World.JoinAbsProps World.EnvSim.
+  World.JoinAbsProps World.EnvSim World.JoinEvents.
+From SV Require Import Store.StoreInv.
 From SV Require Import Props.C13.
 Check (C13_visits_the_storages_members : forall e eids sid mode selmod selrem d others i,
   m_has e eids (MRestrict sid mode selmod selrem d others) i = NS.mem i (env_mask e sid) /\
@@ -31,3 +32,11 @@ Check (C13_read_only_views_change_nothing : forall unit av hs excl eids ms keys 
 Check (C13_join_refines_the_join_on_maps : forall unit av hs excl eids ms keys e S, absrel unit e S ->
   snd (visit_keys av hs excl eids ms keys e) = snd (a_visit_keys unit av hs excl eids ms keys S) /\
   absrel unit (fst (visit_keys av hs excl eids ms keys e)) (fst (a_visit_keys unit av hs excl eids ms keys S))).
+Check (C13_event_only_for_items_fetched_mutably : forall av hs excl eids sid mode selmod selrem d i e ms m,
+  NM.find sid (se_stores e) = Some ms -> MInv ms m -> NS.mem i (ms_mask ms) = true ->
+  env_chan (fst (m_get av hs excl eids (MRestrict sid mode selmod selrem d []) i e)) sid =
+    (if N.eqb mode 1 && N.eqb (N.modulo i selmod) selrem
+     then match ms_wrap ms with WPlain => [] | _ => if ms_emit ms then [EModified i] else [] end
+     else []) ++ env_chan e sid).
+Check (C13_reading_emits_nothing : forall e sid i ms m, NM.find sid (se_stores e) = Some ms -> MInv ms m ->
+  NS.mem i (ms_mask ms) = true -> forall s, env_chan (fst (env_jact e sid (JRead i))) s = env_chan e s).
